@@ -55,3 +55,15 @@ Proof.
   exists x. repeat split; assumption.
 Qed.
 Print Assumptions C13_successor_is_fresh.
+
+(* (7) changing the extras through a setter while kept-alive workers are running: the next call gets fresh workers with
+   the new layout (history model; each setter compares the new value with ITS OWN current setting and resets the
+   communication objects when it differs: read off pool.py) *)
+From Mpv Require Import GenParams OrderHist Hist HistProofs.
+Theorem C13_setter_forces_restart :
+  forall l k h, Forall good_obs (hrun (hinit l k) h).
+Proof. exact call_uses_own_params. Qed.
+Print Assumptions C13_setter_forces_restart.
+Theorem C13_setters_reset : setters_reset_comms = true.
+Proof. exact setters_reset_comms_spec. Qed.
+Print Assumptions C13_setters_reset.
